@@ -24,6 +24,7 @@ Decided (operator level; the part of the statement whose truth is in the shape o
  R5 K7  parser: the Pratt parser maps each operator rule to the ast node of the same name with
         (lhs, rhs) in order, `is Some`/`is None` to Is(e, true/false), and policy.pest spells the
         operator rules with the language's tokens.
+ R6 K7  parser: the Pratt table's levels and associativity (`&&` and `||` on one level, ...).
 Not decided: let/blocks/match/struct/field access/cast/function-call semantics on arbitrary nested
 programs and i64 boundary values - these quantify over programs and values (stated in DESIGN.md)."""
 import itertools
@@ -437,6 +438,7 @@ def run(F, rep, tier):
     lower_rules(F, rep)
     builtin_rules(F, rep)
     parser_rules(F, rep, F.repo)
+    precedence_rules(F, rep)
 
 
 def lower_rules(F, rep):
@@ -706,3 +708,42 @@ def restore_sp_rule(F, rep):
               "RestoreSP shrinks the stack down to the saved stack pointer (%s) and keeps the return value" % ("bulk shrink" if bulk else "pop loop guarded by len > saved_sp"),
               "the VM handler of RestoreSP does not discard every value above the saved stack pointer (no pop loop guarded by the saved pointer, no truncate at it%s): a `return` "
               "with two or more pending temporaries hands the caller one of the abandoned arguments instead of the return value" % ("; it removes a single element with %s" % single[0].name if single else ""), step.site())
+
+
+def precedence_rules(F, rep):
+    """R6: grouping of unparenthesised operators is part of what `a || b && c` means. The Pratt parser's levels
+    (one `.op(..)` per level, loosest first) must put `&&` and `||` on one level (the language gives them equal
+    priority, left-associative), `==`/`!=` on one, the four relational operators on one, in the order
+    coalesce < and/or < equality < relational < prefix `!` < postfix; coalescing is right-associative, the other
+    infix operators left-associative."""
+    f = F.fn("aranya_policy_lang::lang::parse::get_pratt_parser")
+    ops = [c for c in f.calls if c.name == "op" and c.path and "pratt_parser" in c.path]
+    ops.sort(key=lambda c: sum(1 for d in ops if f.dominates(d.bb, c.bb)))
+    level = {}
+    assoc = {}
+    for i, c in enumerate(ops):
+        sl, sites = f.backward_sources(c.args[1].place.local, through_calls="*")
+        for k, s in sites:
+            if k == "call" and s.name in ("infix", "prefix", "postfix") and s.args and s.args[0].place is not None:
+                rule = None
+                for k2, s2 in f.defs().get(s.args[0].place.local, []):
+                    if k2 == "stmt" and s2.rv_kind() == "agg" and s2.rv[1].get("adt", "").endswith("parse::Rule"):
+                        rule = s2.rv[1].get("variant")
+                if rule:
+                    level[rule] = i
+                    if s.name == "infix" and len(s.args) > 1 and s.args[1].place is not None:
+                        for k2, s2 in f.defs().get(s.args[1].place.local, []):
+                            if k2 == "stmt" and s2.rv_kind() == "agg" and s2.rv[1].get("adt", "").endswith("Assoc"):
+                                assoc[rule] = s2.rv[1].get("variant")
+    rep.floor("operators in the Pratt table", len(level), 15)
+    same = [("and", "or"), ("equal", "not_equal"), ("greater_than", "less_than"), ("greater_than", "greater_than_or_equal"), ("greater_than", "less_than_or_equal")]
+    order = ["coalesce", "and", "equal", "greater_than", "not", "substruct", "dot"]
+    bad = ["%s and %s are on different levels (%s, %s)" % (a, b, level.get(a), level.get(b)) for a, b in same if level.get(a) is None or level.get(a) != level.get(b)]
+    for a, b in zip(order, order[1:]):
+        if level.get(a) is None or level.get(b) is None or not level[a] < level[b]:
+            bad.append("%s (level %s) does not bind looser than %s (level %s)" % (a, level.get(a), b, level.get(b)))
+    for r, want in [("coalesce", "Right")] + [(x, "Left") for x in ("and", "or", "equal", "not_equal", "greater_than", "less_than", "greater_than_or_equal", "less_than_or_equal")]:
+        if assoc.get(r) != want:
+            bad.append("%s is %s-associative, the language defines %s" % (r, assoc.get(r), want))
+    rep.check(not bad, "parse|precedence-table", "K7 table", "operator levels and associativity match the language's table (%d operators on %d levels)" % (len(level), len(ops)),
+              "the Pratt parser's precedence table differs from the language's: %s. An unparenthesised expression such as `a || b && c` is then grouped, and evaluated, differently from what the language defines" % "; ".join(bad), f.site())
